@@ -138,6 +138,14 @@ def defaultFormat (level : Nat) (subject msg ts tid : Bytes) : Except Err Bytes 
     { total := total, level := level, subject := some subject, msg := msg, ts := ts, tid := tid }
   pure (lineOf r)
 
+/-- the same for a subject whose name is NULL: `subject_name_len` stays 0 (the strlen is guarded) and the formatter gets a
+NULL subject_name, so the line has no `[subject]` field -/
+def defaultFormatNull (level : Nat) (msg ts tid : Bytes) : Except Err Bytes := do
+  let total := defaultTotal msg []
+  let r ← formatLine (List.replicate total 0)
+    { total := total, level := level, subject := none, msg := msg, ts := ts, tid := tid }
+  pure (lineOf r)
+
 /-- `s_noalloc_stderr_logger_log`: formats into a stack buffer of MAXIMUM_NO_ALLOC_LOG_LINE_SIZE bytes
 (contents arbitrary: `stack`) and fwrite()s `amount_written` bytes -/
 def noallocFormat (stack : Bytes) (level : Nat) (subject msg ts tid : Bytes) : Except Err Bytes := do
@@ -168,10 +176,11 @@ their number).  The range guard, the slot, the index inside the slot and the bou
 `s_subject_too_big`, `s_subject_slot`, `s_subject_index`, `s_subject_index_rejected`; the pointer part is by hand:
 reading `subject_list[index]` with `index ≥ count` is a fault (`oob`), never an outcome of the C code as it stands. -/
 
-abbrev Slots := Nat → Option (List Bytes)
+/-- per package slot the registered list: one entry per id, its `subject_name` (`none` = a NULL name pointer) -/
+abbrev Slots := Nat → Option (List (Option Bytes))
 
 inductive SubjectRes where
-  | entry (name : Bytes)
+  | entry (name : Option Bytes)  -- the registered entry's subject_name, possibly NULL
   | unknown                      -- NULL: aws_log_subject_name answers "Unknown"
   | oob (index count : Nat)      -- model fault: read behind the registered list
 deriving Repr, DecidableEq
@@ -188,17 +197,24 @@ def subjectLookup (slots : Slots) (subject : Nat) : SubjectRes :=
 
 def unknownSubject : Bytes := [85, 110, 107, 110, 111, 119, 110]   -- "Unknown"
 
-/-- `aws_log_subject_name`; `none` only for the model fault -/
-def subjectName (slots : Slots) (subject : Nat) : Option Bytes :=
+/-- `aws_log_subject_name`: outer `none` only for the model fault; inner `none` = NULL, which is what a registered
+entry with a NULL name yields (only unresolvable ids fall back to "Unknown") -/
+def subjectName (slots : Slots) (subject : Nat) : Option (Option Bytes) :=
   match subjectLookup slots subject with
   | .entry n => some n
-  | .unknown => some unknownSubject
+  | .unknown => some (some unknownSubject)
   | .oob _ _ => none
 
 /-- `aws_register_log_subject_info_list`: the slot is that of the first entry's id (the process is killed for a slot
 ≥ AWS_PACKAGE_SLOTS; callers here stay below) -/
-def registerSubjects (slots : Slots) (firstId : Nat) (names : List Bytes) : Slots :=
+def registerSubjects (slots : Slots) (firstId : Nat) (names : List (Option Bytes)) : Slots :=
   fun i => if i = s_subject_slot firstId then some names else slots i
+
+/-- the no-alloc logger for a subject whose name is NULL -/
+def noallocFormatNull (stack : Bytes) (level : Nat) (msg ts tid : Bytes) : Except Err Bytes := do
+  let r ← formatLine stack
+    { total := MAXIMUM_NO_ALLOC_LOG_LINE_SIZE, level := level, subject := none, msg := msg, ts := ts, tid := tid }
+  pure (lineOf r)
 
 /-! ### level gate and pipeline logger -/
 
@@ -226,13 +242,17 @@ structure Call where
   ts : Bytes
   tid : Bytes
   writeOk : Bool := true      -- does the writer's `write` succeed for this line (disk full, closed pipe, …)
+  subjectNull : Bool := false -- the subject resolves to a registered entry whose name is NULL (`subject` is then unused)
 deriving Repr
 
 /-- `s_aws_logger_pipeline_log`: format, send; a failed send destroys the line. Returns success.
 `s_foreground_channel_send` ignores the result of the writer's `write`: it destroys the line itself and
 reports success whatever the writer said (so the pipeline must not, and does not, destroy it again). -/
+def callFormat (c : Call) : Except Err Bytes :=
+  if c.subjectNull then defaultFormatNull c.level c.msg c.ts c.tid else defaultFormat c.level c.subject c.msg c.ts c.tid
+
 def pipelineLog (p : Pipe) (c : Call) : Pipe × Bool :=
-  match defaultFormat c.level c.subject c.msg c.ts c.tid with
+  match callFormat c with
   | .error _ => (p, false)
   | .ok line =>
     match p.chan with
